@@ -25,6 +25,19 @@ Definition modelled_checkInternal : list point :=
     P_clear;                         (* R4 (redundant for the next file since 8cb695c) *)
     P_ret ].
 
+(* check(FileSettings): a fresh local copy, then the writes of Iso/Fs.v apply_onto *)
+Definition modelled_fs : list fspoint :=
+  [ F_copy_local;                    (* Settings tempSettings = mSettings;  -> apply_onto base *)
+    F_w_userDefines; F_w_userDefines; F_w_userDefines;    (* ';' separator, fs.defines / fs.cppcheckDefines() *)
+    F_w_includePaths;
+    F_w_userUndefs;
+    F_w_standards; F_w_standards;    (* setCPP / setC, only when the entry names a standard *)
+    F_w_platform;                    (* only when the entry names a platform *)
+    F_w_includePaths ].              (* clang import: system include paths appended *)
+
+Lemma fs_points_as_modelled : fs_points = modelled_fs.
+Proof. reflexivity. Qed.
+
 Lemma reset_points_as_modelled :
   check_points = modelled_check /\ checkInternal_points = modelled_checkInternal.
 Proof. split; reflexivity. Qed.
